@@ -330,6 +330,13 @@ def cmdFile (toks : List String) : Option String := do
     | .eof => "EOF"
     | .end_ => "END"))
 
+def cmdFileNew (toks : List String) : Option String := do
+  let k ← kv toks "kind"
+  let kind ← (if k == "regular" then some FileKind.regular else if k == "directory" then some .directory
+    else if k == "chardev" then some .charDevice else if k == "fifo" then some .fifo
+    else if k == "other" then some .other else none)
+  pure (if newWithMetadata kind then "ACCEPTED" else "REFUSED")
+
 /-! ### DIR (C19) -/
 
 def parseNode (fuel : Nat) (toks : List String) : Option (FsNode × List String) :=
@@ -389,6 +396,7 @@ def handle (ctx : DirCtx) (line : String) : DirCtx × String :=
   | "SCHED" :: rest => (ctx, (cmdSched rest).getD "BAD-REQUEST")
   | "ETAG" :: rest => (ctx, (cmdEtag rest).getD "BAD-REQUEST")
   | "FILE" :: rest => (ctx, (cmdFile rest).getD "BAD-REQUEST")
+  | "FILENEW" :: rest => (ctx, (cmdFileNew rest).getD "BAD-REQUEST")
   | "TREE" :: rest =>
     match cmdTree rest with
     | some t => ({ ctx with tree := some t }, "TREE-OK")
